@@ -95,6 +95,10 @@ func (o *orC06) onZK(e *ZKEvent) {
 					o.cur.terminal = "aborted" // external tools are outside the quantifier
 				}
 			}
+			// a request that has ended (recorded, or aborted by the operator) does not come back
+			if prev := o.reqs[k]; prev != nil && byDaemon && (prev.terminal == "ok" || prev.terminal == "rejected" || prev.terminal == "aborted") {
+				m.violate("C06", "resurrected", "ended-request-written-back-by-manager:"+prev.terminal, fmt.Sprintf("%s wrote request %s back into /switch (run_count=%d) after it had ended as %s", e.Inc, k, sw.RunCount, prev.terminal))
+			}
 			if o.cur == nil || o.cur.key != k || o.cur.terminal != "" {
 				o.cur = &reqState{key: k, first: sw, createdT: m.s.now(), createdBy: e.Inc, runCount: sw.RunCount}
 				o.reqs[k] = o.cur
